@@ -17,6 +17,8 @@ inductive Err where
   | value      -- ValueError
   | type       -- TypeError
   | notImpl    -- NotImplementedError
+  | struct     -- struct.error (a number does not fit its `struct` format)
+  | overflow   -- OverflowError
   deriving Repr, DecidableEq, Inhabited
 
 abbrev Bits := List Nat
@@ -472,5 +474,43 @@ def Multi.iter (m : Multi) : List Nat :=
 /-- `MultiIdSet.__len__`. -/
 def Multi.len (m : Multi) : Except Err Nat :=
   foldE (fun acc s => (s.len).map (acc + ·)) 0 m.sets
+
+/-! ### what `ReverseIdSet` / `MultiIdSet` do **not** implement
+
+`ReverseIdSet` defines `__len__/__contains__/__iter__/add/discard/first/last` only and
+`MultiIdSet` `__len__/__iter__/__contains__` only; everything else is inherited from `DocIdSet`,
+whose `before/after/first/last/copy/add/discard` raise `NotImplementedError`, and whose
+`union/intersection/difference/invert` start with `self.copy()`. -/
+
+/-- `ReverseIdSet.before/after` (inherited `DocIdSet.before/after`). -/
+def Rev.before (_ : Rev) (_ : Int) : Except Err (Option Nat) := .error .notImpl
+def Rev.after (_ : Rev) (_ : Int) : Except Err (Option Nat) := .error .notImpl
+/-- `ReverseIdSet.copy()` and with it `union/intersection/difference/invert` (`c = self.copy()`). -/
+def Rev.copy (_ : Rev) : Except Err Rev := .error .notImpl
+def Rev.union (r : Rev) (_ : Other) : Except Err Rev := r.copy
+def Rev.intersection (r : Rev) (_ : Other) : Except Err Rev := r.copy
+def Rev.difference (r : Rev) (_ : Other) : Except Err Rev := r.copy
+def Rev.invert (r : Rev) (_ : Nat) : Except Err Rev := r.copy
+
+/-- `DocIdSet.update` on a `ReverseIdSet`: `for i in other: self.add(i)`. -/
+def Rev.update (r : Rev) (o : Other) : Except Err Rev := foldE Rev.add r o.items
+/-- `DocIdSet.difference_update`: `for n in other: self.discard(n)`. -/
+def Rev.differenceUpdate (r : Rev) (o : Other) : Except Err Rev := foldE Rev.discard r o.items
+/-- `DocIdSet.intersection_update`: `for n in self: if n not in other: self.discard(n)` (the numbers
+    yielded while the wrapped set grows are a superset of the snapshot and the extra ones are
+    already outside the set, so the snapshot gives the same result). -/
+def Rev.intersectionUpdate (r : Rev) (o : Other) : Except Err Rev :=
+  foldE (fun acc n => if o.contains n then .ok acc else acc.discard n) r r.iter
+
+/-- `MultiIdSet.first/last/before/after/copy` (inherited `DocIdSet` defaults). -/
+def Multi.first (_ : Multi) : Except Err (Option Nat) := .error .notImpl
+def Multi.last (_ : Multi) : Except Err (Option Nat) := .error .notImpl
+def Multi.before (_ : Multi) (_ : Int) : Except Err (Option Nat) := .error .notImpl
+def Multi.after (_ : Multi) (_ : Int) : Except Err (Option Nat) := .error .notImpl
+def Multi.copy (_ : Multi) : Except Err Multi := .error .notImpl
+def Multi.union (m : Multi) (_ : Other) : Except Err Multi := m.copy
+def Multi.intersection (m : Multi) (_ : Other) : Except Err Multi := m.copy
+def Multi.difference (m : Multi) (_ : Other) : Except Err Multi := m.copy
+def Multi.invert (m : Multi) (_ : Nat) : Except Err Multi := m.copy
 
 end WM.IdSets
